@@ -444,6 +444,8 @@ def coq_expect(e):
         return "XCircular"
     if e[0] == "compiles":
         return "XCompiles"
+    if e[0] == "invalidargs":
+        return "XInvalidArgs"
     raise ValueError(e)
 
 
